@@ -24,7 +24,7 @@ CLAIMED = {
 NOT_YET = {}
 WIDE = {"C01", "C02", "C06", "C08", "C09", "C10", "C11", "C12", "C13", "C15", "C18"}
 MULTI = {"C01", "C02", "C06", "C08", "C09", "C11", "C12", "C13", "C15", "C18"}
-LONG = {"C01", "C06", "C08", "C09", "C11", "C13"}
+LONG = {"C01", "C06", "C08", "C09", "C11"}
 ALL = ["C%02d" % i for i in range(1, 21)]
 
 def main():
